@@ -103,3 +103,31 @@ Theorem C01_source_rsv_bits :
   (forall r1 r2 r3, g_Rsv r1 r2 r3 = (4 * b2z r1 + 2 * b2z r2 + b2z r3)%Z).
 Proof. exact (conj xl_Header_Rsv_bits xl_Rsv). Qed.
 Print Assumptions C01_source_rsv_bits.
+
+(* ---- tie C3: WriteHeader TRANSLATED from write.go on this run (gen/Translated3.v, memory model lib/GoMem.v):
+   the local buffer is a NEW 14-byte array (make), the stores bts[i] |= .., binary.BigEndian.PutUint16/64 into
+   bts[2:4] / bts[2:10], copy(bts[n:], h.Mask[:]) go through ALIASING sub-slices of it, and w.Write(bts[:n]) is
+   an oracle that records the bytes it is handed.  For every value of the Go type ws.Header (hdr_go: byte-sized
+   rsv and opcode, a 4-byte mask, an int64 length), every heap and every writer: no panic; exactly ONE Write,
+   of exactly the model's write_header bytes (hence, by C01_write_is_rfc, the RFC 6455 layout for well-formed
+   headers); the error returned is the writer's; older memory is untouched (the only change to the heap is the
+   new array, whose first bytes are the header).  The ErrHeaderLengthUnexpected branch is dead for int64. *)
+Require GoSlices GoMem Translated3 Translated3Ok Translated3Hdr.
+Theorem C01_source_write_header : forall wr h w, Translated3Hdr.hdr_go h ->
+  exists bs arr, write_header h = inr bs /\
+    Translated3.g3_WriteHeader wr (Translated3Hdr.hdr_z h) w =
+    GoSlices.Ok (snd (wr (GoMem.w_out w) (Translated3Ok.zb bs)),
+                 GoMem.mk_world (GoMem.w_heap w ++ [arr]) (GoMem.w_out w ++ [Translated3Ok.zb bs]))
+    /\ length arr = 14%nat /\ firstn (length bs) arr = Translated3Ok.zb bs.
+Proof. exact Translated3Hdr.g3_WriteHeader_ok. Qed.
+Print Assumptions C01_source_write_header.
+
+Example C01_source_write_header_nonvacuous :
+  let h := mkHeader true 5 2 true [1; 2; 3; 4] 70000%Z in
+  let wr : GoMem.g_writer Translated3.g_error := fun _ bs => (Z.of_nat (length bs), None) in
+  Translated3Hdr.hdr_go h /\
+  Translated3.g3_WriteHeader wr (Translated3Hdr.hdr_z h) (GoMem.mk_world [[7]%Z] []) =
+  GoSlices.Ok (None, GoMem.mk_world [[7]%Z; [210; 255; 0; 0; 0; 0; 0; 1; 17; 112; 1; 2; 3; 4]%Z]
+                                    [[210; 255; 0; 0; 0; 0; 0; 1; 17; 112; 1; 2; 3; 4]%Z])
+  /\ write_header h = inr [210; 255; 0; 0; 0; 0; 0; 1; 17; 112; 1; 2; 3; 4].
+Proof. vm_compute. repeat split; try reflexivity; try (intro; discriminate); repeat constructor. Qed.
